@@ -894,6 +894,9 @@ func (h *hist) judge(o *obs, truth *uni.Truth) {
 	if o.warm {
 		r.Count("reads_warm_cache", 1)
 	}
+	if o.rpcs > 100 {
+		r.Count("reads_with_more_than_100_rpcs", 1)
+	}
 	if o.regions > 1 {
 		r.Count("multi_request:"+o.path, 1)
 	}
@@ -980,7 +983,15 @@ func (h *hist) judgeScan(o *obs, truth *uni.Truth) {
 	if o.keyOnly {
 		ko = ":key-only"
 	}
-	sig := func(what string) string { return fmt.Sprintf("%s:%s%s%s:%s", o.path, what, ko, movedTag(o), h.backend) }
+	// the ts movement is part of the signature only where an answer of the old ts could have leaked
+	sig := func(what string) string {
+		mv := movedTag(o)
+		switch what {
+		case "does-not-end", "key-outside-bounds", "key-repeated", "out-of-order":
+			mv = ""
+		}
+		return fmt.Sprintf("%s:%s%s%s:%s", o.path, what, ko, mv, h.backend)
+	}
 	extra := map[string]any{"want": want, "got": o.got}
 	if o.truncated {
 		h.violate(o, truth, sig("does-not-end"), fmt.Sprintf("the scan returned more than %d pairs over %d keys", len(o.got)-1, len(h.keys)), extra)
